@@ -398,6 +398,12 @@ fn run_workload_x(sink: &Arc<Mutex<Sink>>, w: Arc<Workload>, origin: &str, sched
         })
     }));
     quiet_panics();
+    if verif_shim::blocked_while_panicking() {
+        // whatever this run observed is an artefact of the simulator, not of the library
+        sink.lock().unwrap().violation = None;
+        return Err("unsupported by the simulator: a simulated thread blocked while its (caught) panic was unwinding; \
+                    the panic flag of the one OS thread then leaks into the other simulated threads".to_string());
+    }
     match res {
         Ok(_) => Ok(()),
         Err(p) => {
